@@ -47,15 +47,19 @@ func (r *c31Run) Setup(s *sim.Sim) {
 	n := 10 + p.Intn(50)
 	for i := 0; i < n; i++ {
 		op := c31Op{Client: p.Intn(2), Node: p.Intn(len(r.Nodes))}
-		switch p.Intn(10) {
+		switch p.Intn(12) {
 		case 0, 1, 2, 3:
 			op.Kind = 0
 		case 4, 5, 6, 7:
 			op.Kind = 1
 		case 8:
 			op.Kind, op.Level = 2, p.Intn(5)
-		default:
+		case 9:
 			op.Kind, op.Level = 3, p.Intn(5)
+		case 10: // the server application changes the level through the public Node API
+			op.Kind, op.Level = 4, p.Intn(5)
+		default:
+			op.Kind, op.Level = 5, p.Intn(5)
 		}
 		if op.Kind <= 1 && p.Chance(1, 4) {
 			for k := 0; k < 1+p.Intn(3); k++ {
@@ -247,6 +251,16 @@ func (r *c31Run) Main(s *sim.Sim) {
 			}
 			if res.Results[0] == ua.StatusOK {
 				s.Probe("level-changed")
+				s.Nontrivial()
+			}
+		case 4, 5:
+			attr := ua.AttributeIDAccessLevel
+			if op.Kind == 5 {
+				attr = ua.AttributeIDUserAccessLevel
+			}
+			// no request is in flight here: the application reconfigures the node between two client calls
+			if err := nodes[op.Node].SetAttribute(attr, server.DataValueFromValue(c31LevelValue(op.Level))); err == nil {
+				s.Probe("level-changed-by-application")
 				s.Nontrivial()
 			}
 		}
